@@ -6,6 +6,7 @@
 From Coq Require Import ZArith List Bool Arith.
 From SpadeV Require Import Num.Decode Num.Decode2 Geom.Pred Obs.State Obs.Spec Vmap.Model Dcel.Raw Gen.DcelOps Tri.Legalize Tri.Insert Tri.Locate Tri.InsertLine Obs.LineSpec Tri.LineIter Tri.Remove Tri.AddConstraint Query.NatNeighbor Query.FloodFill Query.FloodFillFloat Check.Codes Check.Run.
 From SpadeV Require Num.F64.
+From SpadeV Require Query.Hull Gen.Sizes.
 Import ListNotations.
 
 Definition dcel_eqb (a b : dcel) : bool :=
@@ -84,6 +85,13 @@ Definition line_candidates (p : obs) (pts : list pnt) (q : pnt) : list lloc :=
     end
   end.
 
+(* handle_legal_edge_split (src/cdt.rs): an insertion on a constraint edge re-flags both halves (Tri/Insert.v `insert_2d` IOnEdge, Tri/InsertLine.v
+   LOnEdge; part of the table comparison) and adds one to num_constraints; no other insertion changes the counter *)
+Definition split_constraints (d : dcel) (loc : iloc) : nat :=
+  match loc with IOnEdge e => if is_flagged d e then 1 else 0 | _ => 0 end.
+Definition line_split_constraints (d : dcel) (loc : lloc) : nat :=
+  match loc with LOnEdge e => if is_flagged d e then 1 else 0 | _ => 0 end.
+
 Definition check_insert_line_model (p n : obs) (x y d : Z) (res : list Z) : list (tag * bool) :=
   match res with
   | [r0; _] =>
@@ -97,7 +105,7 @@ Definition check_insert_line_model (p n : obs) (x y d : Z) (res : list Z) : list
             let dn := dcel_of_obs n in
             let fuel := nH p * nH p + 200 in
             [(T_corr, existsb (fun loc => match insert_line allp fuel dd loc (mkvd x y d) with
-                                           | Some d' => dcel_eqb d' dn
+                                           | Some d' => dcel_eqb d' dn && (o_nc n =? o_nc p + line_split_constraints dd loc)
                                            | None => false end) (line_candidates p pts q))]
         | _ => [(T_parse, false)]
         end
@@ -120,7 +128,7 @@ Definition check_insert_model (p n : obs) (x y d : Z) (res : list Z) : list (tag
             let dn := dcel_of_obs n in
             let fuel := nH p * nH p + 200 in
             [(T_corr, existsb (fun loc => match insert_2d allp fuel dd loc (mkvd x y d) with
-                                           | Some d' => dcel_eqb d' dn
+                                           | Some d' => dcel_eqb d' dn && (o_nc n =? o_nc p + split_constraints dd loc)
                                            | None => false end) (insert_candidates p pts q))]
         | _ => [(T_parse, false)]
         end
@@ -603,6 +611,74 @@ Definition check_flood_model (f32 : bool) (op : Z) (p : obs) (args res : list Z)
   end.
 
 
+(* ---- M12: remove_constraint_edge (rmc), clear, clone, locate_vertex (locv), convex_hull() (hull) ---- *)
+(* rmc E<k>: ConstrainedDelaunayTriangulation::remove_constraint_edge = Tri/Remove.v `remove_constraint_edge` (unflag + legalize_edge(edge, true));
+   all four tables, the returned bool, num_constraints *)
+Definition check_rmc_model (p n : obs) (args res : list Z) : list (tag * bool) :=
+  match args, res with
+  | [e], [r] =>
+    if (e <? 0)%Z then [(T_parse, false)] else
+    match obs_points p with
+    | Some pts =>
+        let dd := dcel_of_obs p in
+        let dn := dcel_of_obs n in
+        let fuel := nH p * nH p + 200 in
+        match remove_constraint_edge pts fuel dd (Z.to_nat e) with
+        | Some (d', b) => [(T_corr, dcel_eqb d' dn && (r =? (if b then 1 else 0))%Z && (o_nc n + (if b then 1 else 0) =? o_nc p))]
+        | None => [(T_corr, false)]
+        end
+    | None => [(T_parse, false)]
+    end
+  | _, _ => []
+  end.
+
+(* clear: Dcel::clear (Tri/Remove.v `dcel_clear`) and num_constraints = 0;  clone: the identical state *)
+Definition check_clear_model (p n : obs) : list (tag * bool) :=
+  [(T_corr, dcel_eqb (dcel_clear (dcel_of_obs p)) (dcel_of_obs n) && (o_nc n =? 0))].
+Definition check_clone_model (p n : obs) : list (tag * bool) :=
+  [(T_corr, dcel_eqb (dcel_of_obs p) (dcel_of_obs n) && (o_nc n =? o_nc p))].
+
+(* locate_vertex(x, y) = match self.locate(point) { OnVertex(v) => Some(v), _ => None }: through the locate models.  Two-dimensional states:
+   Tri/Locate.v from some start vertex (the hint comes from the hint generator); degenerate states: Tri/LineIter.v `locate_degenerate`
+   (deterministic). *)
+Definition locv_matches (r : option lstart) (res : list Z) : bool :=
+  match r, res with
+  | Some (LsVertex v), [k; i] => (k =? K_some)%Z && (0 <=? i)%Z && (Z.to_nat i =? v)
+  | Some (LsVertex _), _ => false
+  | Some _, [k] => (k =? K_none)%Z
+  | _, _ => false
+  end.
+Definition check_locv_model (p : obs) (x y : Z) (res : list Z) : list (tag * bool) :=
+  match decode_points_e (coord_bits p ++ [x; y]) with
+  | Some (allp, em) =>
+      let pts := firstn (nV p) allp in
+      match skipn (nV p) allp with
+      | [q] =>
+          let dd := dcel_of_obs p in
+          if nF p <=? 1 then [(T_corr, locv_matches (locate_degenerate pts dd q) res)]
+          else [(T_corr, existsb (fun c => locv_matches (lstart_of_lres (locate_from_closest pts dd q c)) res) (seq 0 (nV p)))]
+      | _ => []
+      end
+  | None => []
+  end.
+
+(* hull: R <convex_hull_size()> <n> <convex_hull() ...> <m> <convex_hull().rev() ...>: the iterator models of Query/Hull.v (order-exact, both
+   directions) and the GENERATED size formula (Gen/Sizes.v) *)
+Definition check_hull_model (p : obs) (res : list Z) : list (tag * bool) :=
+  match res with
+  | hs :: n :: t =>
+      let fwd := firstn (Z.to_nat n) t in
+      match skipn (Z.to_nat n) t with
+      | m :: bwd =>
+          [(T_corr, (length fwd =? Z.to_nat n) && (length bwd =? Z.to_nat m) &&
+                    (Z.to_nat hs =? Gen.Sizes.convex_hull_size (Query.Hull.sizes_of p)) && (0 <=? hs)%Z &&
+                    match Query.Hull.hull_iter p with Some l => nat_list_eqb l fwd | None => false end &&
+                    match Query.Hull.hull_iter_rev p with Some l => nat_list_eqb l bwd | None => false end)]
+      | [] => [(T_parse, false)]
+      end
+  | _ => []
+  end.
+
 Fixpoint run_model_steps (c : cfg) (p : obs) (k : nat) (l : list step) : list verdict :=
   match l with
   | [] => []
@@ -623,6 +699,9 @@ Fixpoint run_model_steps (c : cfg) (p : obs) (k : nat) (l : list step) : list ve
             else if (s_op st =? OP_canc)%Z then map (fun v => (k, fst v, snd v)) (check_canc_model (c_f32 c) p (s_args st) (s_res st))
             else if (s_op st =? OP_vrect)%Z || (s_op st =? OP_erect)%Z || (s_op st =? OP_vcirc)%Z || (s_op st =? OP_ecirc)%Z then
               map (fun v => (k, fst v, snd v)) (check_flood_model (c_f32 c) (s_op st) p (s_args st) (s_res st))
+            else if (s_op st =? OP_locv)%Z then
+              match s_args st with [x; y] => map (fun v => (k, fst v, snd v)) (check_locv_model p x y (s_res st)) | _ => [] end
+            else if (s_op st =? OP_hull)%Z then map (fun v => (k, fst v, snd v)) (check_hull_model p (s_res st))
             else if (s_op st =? OP_nnw)%Z then map (fun v => (k, fst v, snd v)) (check_weights_model c p true (s_args st) (s_res st))
             else if (s_op st =? OP_bary)%Z then map (fun v => (k, fst v, snd v)) (check_weights_model c p false (s_args st) (s_res st))
             else [])
@@ -648,6 +727,12 @@ Fixpoint run_model_steps (c : cfg) (p : obs) (k : nat) (l : list step) : list ve
               | v :: _ => map (fun r => (k, fst r, snd r)) (check_remove_model (c_cdt c) p n v (s_res st))
               | _ => []
               end
+         else if (s_op st =? OP_rmc)%Z && negb (existsb (Z.eqb K_skip) (s_res st) || existsb (Z.eqb K_panic) (s_res st) || existsb (Z.eqb K_hang) (s_res st))
+         then map (fun r => (k, fst r, snd r)) (check_rmc_model p n (s_args st) (s_res st))
+         else if (s_op st =? OP_clear)%Z && negb (existsb (Z.eqb K_skip) (s_res st) || existsb (Z.eqb K_panic) (s_res st) || existsb (Z.eqb K_hang) (s_res st))
+         then map (fun r => (k, fst r, snd r)) (check_clear_model p n)
+         else if (s_op st =? OP_clone)%Z && negb (existsb (Z.eqb K_skip) (s_res st) || existsb (Z.eqb K_panic) (s_res st) || existsb (Z.eqb K_hang) (s_res st))
+         then map (fun r => (k, fst r, snd r)) (check_clone_model p n)
          else if (s_op st =? OP_lrm)%Z && negb (existsb (Z.eqb K_skip) (s_res st) || existsb (Z.eqb K_panic) (s_res st) || existsb (Z.eqb K_hang) (s_res st))
          then match s_args st with
               | x :: y :: _ => map (fun r => (k, fst r, snd r)) (check_lrm_model (c_cdt c) p n x y (s_res st))
